@@ -353,8 +353,9 @@ def _run_check(prop, tier, seed, t0, harness, cfg, budget, level, targets, scrat
     ev = make_evidence(prop, tier, seed, level, cfg, harness, stats_all, engines_count, known_here, violations, notes, t0,
                        replay_excluded)
     ev["coverage"].update(extra_cov)
-    os.makedirs(os.path.join(VERIF, "evidence"), exist_ok=True)
-    with open(os.path.join(VERIF, "evidence", prop + ".json"), "w") as f:
+    evdir = os.environ.get("VERIF_EVIDENCE", os.path.join(VERIF, "evidence"))  # sensitivity runs on modified trees write elsewhere
+    os.makedirs(evdir, exist_ok=True)
+    with open(os.path.join(evdir, prop + ".json"), "w") as f:
         json.dump(ev, f, indent=1)
     for k in known_here:
         print("KNOWN-FINDING: property=%s %s [signature %s; tolerated %d times in this run]" %
